@@ -38,7 +38,8 @@ Proof. intros. rewrite <- (Rpower_1 q) at 3 by assumption. rewrite <- Rpower_plu
 
 (* side conditions: conjunctions of hypotheses, positivity of square roots, non-nullity of positive numbers *)
 Ltac nz := repeat split; try assumption; try (apply sqrt_lt_R0; assumption); try (apply Rgt_not_eq; assumption);
-           try (apply Rgt_not_eq; apply sqrt_lt_R0; assumption); try lra; try (timeout 20 nra).
+           try (apply Rgt_not_eq; apply sqrt_lt_R0; assumption); try lra; try (apply Rdiv_lt_0_compat; lra);
+           try (apply Rmult_lt_0_compat; [ lra | apply Rinv_0_lt_compat; lra ]); try (timeout 20 nra).
 
 (* |x| >= c > 0 (a pivot test that did not fire) gives x <> 0 *)
 Lemma not_abs_lt_nz x c : 0 < c -> ~ (Rabs x < c) -> x <> 0.
